@@ -31,6 +31,18 @@ ASSUMPTIONS = ['NumPy promotion rules for the logical dtype of intermediates (py
 CONFIG_TIME_LIMIT = {'quick': 600, 'thorough': 3000}
 
 
+def zero_flag(term):
+    """np.isclose(term, 0) as a path decision.  The outcome is a Boolean keyed by the canonical (sum-of-monomials)
+    form of the term: both outcomes are explored without asking the arithmetic solver whether |term| <= 1e-8 is
+    feasible (a sound over-approximation: the property is demanded on both branches), and the specification, which
+    builds the same polynomial, gets the same Boolean."""
+    t = z3.simplify(rq(term), som=True)
+    if z3.is_rational_value(t):
+        f = t.as_fraction()
+        return abs(f) <= 1e-8
+    return decide(z3.Bool('isclose0!%s' % t.sexpr()))
+
+
 class NPP(NPProxy):
     @staticmethod
     def isclose(a, b, **kw):
@@ -38,8 +50,7 @@ class NPP(NPProxy):
         raw = a.raw() if isinstance(a, Sym) else np.asarray(a, dtype=object)
         out = np.zeros(raw.shape, dtype=bool)
         for idx in np.ndindex(*raw.shape):
-            t = rq(raw[idx])
-            out[idx] = decide(z3.And(t <= rq(1e-8), t >= -rq(1e-8)))
+            out[idx] = zero_flag(raw[idx])
         return out
 
 
@@ -244,7 +255,7 @@ def check_apply(ns, c, local):
             for j in range(F):
                 if nv:
                     var = rq(s2[j]) / cnt - (rq(s1[j]) / cnt) * (rq(s1[j]) / cnt)
-                    zero.append(decide(z3.And(var <= rq(1e-8), var >= -rq(1e-8))))
+                    zero.append(zero_flag(var))
                 else:
                     zero.append(False)
             want = _apply_spec(x0, axis, s1, s2, cnt, nv, zero)
@@ -265,13 +276,11 @@ def check_apply(ns, c, local):
             pairs = [(a, b) for a, b in pairs if not a.eq(b)]
             if not pairs:
                 continue
-            s = ctx.solver
-            s.push()
-            s.add(z3.Or([a != b for a, b in pairs]))
-            rr = check_sat(s)
-            s.pop()
+            rr, _ = symex.nra_check([z3.Or([a != b for a, b in pairs])], timeout_ms=60000)
             if rr == 'sat':
                 return dict(c, what='values differ from (x - mean) * rho')
+            if rr != 'unsat':
+                raise Inconclusive('apply comparison: solver %s' % rr)
     return None
 
 
